@@ -2,6 +2,7 @@ package main
 
 import (
 	"fmt"
+	"go/types"
 	"os"
 	"hash/crc32"
 	"math"
@@ -317,6 +318,10 @@ func init() {
 			ex.tags = append(ex.tags, id)
 		}
 		return nil, true
+	})
+	// DeepCopy(x): structural copy of an object graph (sharing preserved) - used by snapshot models
+	reg(rtPkg+"DeepCopy", func(ex *Exec, g *G, fn *ssa.Function, a []Value) (Value, bool) {
+		return ex.deepCopy(a[0], map[*AggV]*AggV{}, map[*MapObj]*MapObj{}), true
 	})
 	// IsSymbolic-free helpers for harness authors
 	reg(rtPkg+"Concrete", func(ex *Exec, g *G, fn *ssa.Function, a []Value) (Value, bool) {
@@ -750,8 +755,61 @@ func init() {
 	})
 	reg("time.Sleep", intrinsics["runtime.Gosched"])
 
+	// ---- sort.Slice / SliceStable: insertion sort driving the real less closure --------------------
+	sortSlice := func(ex *Exec, g *G, fn *ssa.Function, a []Value) (Value, bool) {
+		iv := a[0].(IfaceV)
+		sl, ok := iv.V.(SliceV)
+		if !ok {
+			panic(abortf("sort.Slice on %T", iv.V))
+		}
+		less := a[1].(FuncV)
+		ex.noteAssume("sort.Slice is modelled as an insertion sort calling the real less closure (any result consistent with less; stability not assumed by callers)")
+		for i := 1; i < sl.Len; i++ {
+			for j := i; j > 0; j-- {
+				r := ex.callSync(g, less, []Value{ex.intTerm(int64(j)), ex.intTerm(int64(j - 1))}).(*Term)
+				if !ex.branch(r) {
+					break
+				}
+				sl.A.E[sl.Off+j], sl.A.E[sl.Off+j-1] = sl.A.E[sl.Off+j-1], sl.A.E[sl.Off+j]
+			}
+		}
+		return nil, true
+	}
+	reg("sort.Slice", sortSlice)
+	reg("sort.SliceStable", sortSlice)
+	reg("sort.Strings", func(ex *Exec, g *G, fn *ssa.Function, a []Value) (Value, bool) {
+		sl := a[0].(SliceV)
+		for i := 1; i < sl.Len; i++ {
+			for j := i; j > 0; j-- {
+				x, y := sl.A.E[sl.Off+j].(StrV), sl.A.E[sl.Off+j-1].(StrV)
+				if !ex.branch(ex.strLess(x, y, false)) {
+					break
+				}
+				sl.A.E[sl.Off+j], sl.A.E[sl.Off+j-1] = y, x
+			}
+		}
+		return nil, true
+	})
+
+	reg("reflect.DeepEqual", func(ex *Exec, g *G, fn *ssa.Function, a []Value) (Value, bool) {
+		return ex.deepEqual(a[0], a[1], 0), true
+	})
+
 	// ---- clock stub: arbitrary non-decreasing instants (whole seconds) -------------------------------
 	reg("time.Now", func(ex *Exec, g *G, fn *ssa.Function, a []Value) (Value, bool) {
+		if ex.cfg.ConcreteClock {
+			k := int64(0)
+			if prev, ok := ex.ghost["clock"].(*Term); ok {
+				k = prev.SInt()
+			}
+			k++
+			ex.ghost["clock"] = ex.intTerm(k)
+			t := ex.newAgg(3)
+			t.E[0] = ex.ts.BVConst(64, 0)
+			t.E[1] = ex.intTerm(1700000000 + k + 62135596800)
+			t.E[2] = Ptr{}
+			return t, true
+		}
 		sec := ex.nondet("clock", BV(64))
 		lo := ex.intTerm(0)
 		if prev, ok := ex.ghost["clock"].(*Term); ok {
@@ -813,6 +871,32 @@ func init() {
 		reg("sync/atomic.CompareAndSwap"+t, atomicCAS)
 	}
 	reg("internal/runtime/atomic.Load", atomicLoad)
+	// atomic.Value: field v any
+	reg("(*sync/atomic.Value).Load", func(ex *Exec, g *G, fn *ssa.Function, a []Value) (Value, bool) {
+		p := a[0].(Ptr)
+		return p.C.E[p.I].(*AggV).E[0], true
+	})
+	reg("(*sync/atomic.Value).Store", func(ex *Exec, g *G, fn *ssa.Function, a []Value) (Value, bool) {
+		p := a[0].(Ptr)
+		p.C.E[p.I].(*AggV).E[0] = a[1]
+		return nil, true
+	})
+	reg("(*sync/atomic.Value).CompareAndSwap", func(ex *Exec, g *G, fn *ssa.Function, a []Value) (Value, bool) {
+		p := a[0].(Ptr)
+		st := p.C.E[p.I].(*AggV)
+		if ex.branch(ex.valEq(st.E[0], a[1])) {
+			st.E[0] = a[2]
+			return ex.ts.True(), true
+		}
+		return ex.ts.False(), true
+	})
+	reg("(*sync/atomic.Value).Swap", func(ex *Exec, g *G, fn *ssa.Function, a []Value) (Value, bool) {
+		p := a[0].(Ptr)
+		st := p.C.E[p.I].(*AggV)
+		old := st.E[0]
+		st.E[0] = a[1]
+		return old, true
+	})
 }
 
 func (ex *Exec) mkStrRaw(b []*Term) StrV {
@@ -920,4 +1004,165 @@ func (ex *Exec) symSprintf(format string, argsV Value) (StrV, bool) {
 		}
 	}
 	return ex.mkStr(out), true
+}
+
+// deepCopy clones everything reachable from v (memory cells, maps); channels and functions are shared.
+func (ex *Exec) deepCopy(v Value, am map[*AggV]*AggV, mm map[*MapObj]*MapObj) Value {
+	switch x := v.(type) {
+	case *AggV:
+		return ex.deepAgg(x, am, mm)
+	case Ptr:
+		if x.C == nil {
+			return x
+		}
+		return Ptr{C: ex.deepAgg(x.C, am, mm), I: x.I, Sym: x.Sym, N: x.N}
+	case SliceV:
+		if x.A == nil {
+			return x
+		}
+		x.A = ex.deepAgg(x.A, am, mm)
+		return x
+	case MapV:
+		if x.M == nil {
+			return x
+		}
+		if n, ok := mm[x.M]; ok {
+			return MapV{M: n}
+		}
+		ex.objCount++
+		n := &MapObj{Idx: map[string]int{}, ID: ex.objCount, KeyT: x.M.KeyT, ValT: x.M.ValT, N: x.M.N}
+		mm[x.M] = n
+		for _, e := range x.M.Ent {
+			ne := &MapEntry{K: ex.deepCopy(e.K, am, mm), V: ex.deepCopy(e.V, am, mm), Dead: e.Dead}
+			n.Ent = append(n.Ent, ne)
+			if !e.Dead {
+				if ks, ok := keyString(ne.K); ok {
+					n.Idx[ks] = len(n.Ent) - 1
+				}
+			}
+		}
+		return MapV{M: n}
+	case IfaceV:
+		if x.T == nil {
+			return x
+		}
+		return IfaceV{T: x.T, V: ex.deepCopy(x.V, am, mm)}
+	case TupleV:
+		out := make(TupleV, len(x))
+		for i, e := range x {
+			out[i] = ex.deepCopy(e, am, mm)
+		}
+		return out
+	case FuncV:
+		if len(x.Env) == 0 {
+			return x
+		}
+		env := make([]Value, len(x.Env))
+		for i, e := range x.Env {
+			env[i] = ex.deepCopy(e, am, mm)
+		}
+		x.Env = env
+		return x
+	}
+	return v
+}
+
+func (ex *Exec) deepAgg(a *AggV, am map[*AggV]*AggV, mm map[*MapObj]*MapObj) *AggV {
+	if n, ok := am[a]; ok {
+		return n
+	}
+	n := ex.newAgg(len(a.E))
+	am[a] = n
+	for i, e := range a.E {
+		n.E[i] = ex.deepCopy(e, am, mm)
+	}
+	return n
+}
+
+// deepEqual mirrors reflect.DeepEqual on the executor's values (maps by key, slices element-wise,
+// nil and empty slices/maps differ, NaN != NaN).
+func (ex *Exec) deepEqual(a, b Value, depth int) *Term {
+	ts := ex.ts
+	if depth > 50 {
+		panic(abortf("deepEqual: too deep"))
+	}
+	switch x := a.(type) {
+	case IfaceV:
+		y, ok := b.(IfaceV)
+		if !ok {
+			return ts.False()
+		}
+		if x.T == nil || y.T == nil {
+			return ts.Bool(x.T == nil && y.T == nil)
+		}
+		if !types.Identical(x.T, y.T) {
+			return ts.False()
+		}
+		return ex.deepEqual(x.V, y.V, depth+1)
+	case MapV:
+		y, ok := b.(MapV)
+		if !ok {
+			return ts.False()
+		}
+		if x.M == nil || y.M == nil {
+			return ts.Bool(x.M == nil && y.M == nil)
+		}
+		if x.M == y.M {
+			return ts.True()
+		}
+		if x.M.N != y.M.N {
+			return ts.False()
+		}
+		r := ts.True()
+		for _, e := range x.M.Ent {
+			if e.Dead {
+				continue
+			}
+			i := ex.mapFind(y.M, e.K)
+			if i < 0 {
+				return ts.False()
+			}
+			r = ts.And(r, ex.deepEqual(e.V, y.M.Ent[i].V, depth+1))
+		}
+		return r
+	case SliceV:
+		y, ok := b.(SliceV)
+		if !ok {
+			return ts.False()
+		}
+		if x.IsNil() != y.IsNil() || x.Len != y.Len {
+			return ts.False()
+		}
+		r := ts.True()
+		for i := 0; i < x.Len; i++ {
+			r = ts.And(r, ex.deepEqual(x.A.E[x.Off+i], y.A.E[y.Off+i], depth+1))
+		}
+		return r
+	case *AggV:
+		y, ok := b.(*AggV)
+		if !ok || len(x.E) != len(y.E) {
+			return ts.False()
+		}
+		r := ts.True()
+		for i := range x.E {
+			r = ts.And(r, ex.deepEqual(x.E[i], y.E[i], depth+1))
+		}
+		return r
+	case Ptr:
+		y, ok := b.(Ptr)
+		if !ok {
+			return ts.False()
+		}
+		if x.C == nil || y.C == nil {
+			return ts.Bool(x.C == nil && y.C == nil)
+		}
+		if x.C == y.C && x.I == y.I {
+			return ts.True()
+		}
+		return ex.deepEqual(x.C.E[x.I], y.C.E[y.I], depth+1)
+	case FuncV:
+		y, _ := b.(FuncV)
+		return ts.Bool(x.IsNil() && y.IsNil())
+	}
+	return ex.valEq(a, b)
 }
